@@ -116,6 +116,9 @@ func main() {
 	if prop == "selftest" {
 		os.Exit(selftest(seed, *seeds, *par))
 	}
+	if prop == "vsplit" {
+		os.Exit(vsplitCmd(*par))
+	}
 	if prop == "instrumented-tests" {
 		b, err := buildSimnode("itests")
 		defer b.cleanup()
@@ -145,6 +148,7 @@ func main() {
 	fmt.Printf("built instrumented simnode in %.1fs: %d yield sites, knob %v, sync rewritten in %v, go statements %v, channel ops wrapped %d, not wrappable %v\n",
 		b.wall.Seconds(), len(b.instr.Sites), b.instr.Knob, b.instr.SyncRewrite, b.instr.GoStmts, len(b.instr.ChanWrapped), b.instr.ChanOps)
 	code := 0
+	deepTier = *tier == "thorough"
 	if *only >= 0 {
 		corp, err := loadCorpus(filepath.Join(verifDir(), "corpus"))
 		if err != nil {
